@@ -49,6 +49,7 @@ fn cb_body(c: &CbCase) -> Result<(), Fail> {
     let count: Option<usize>;
     let mut pulled = 0usize;
     let mut left_in_source = 0usize;
+    let mut two_batches: Option<(usize, usize, usize)> = None;
     {
         let mut cb: OpaqueCallback<HeapTok> = match sink_kind {
             0 => OpaqueCallback::from(&mut closure),
@@ -99,18 +100,16 @@ fn cb_body(c: &CbCase) -> Result<(), Fail> {
                 Some(k)
             }
             _ => {
-                // two batches through the same callback; the second is only fed if the first
-                // was not stopped (that is the caller's obligation, as in the library's docs)
+                // two batches through the SAME callback object: a stop ends one feed, it does not
+                // disable the callback - the next feed reaches the closure again
                 let mut it = items.into_iter();
                 let cut = if n == 0 { 0 } else { c.split as usize % (n + 1) };
                 let first: Vec<HeapTok> = it.by_ref().take(cut).collect();
                 let a = first.feed_into_mut(&mut cb);
-                if a == cut && !(stop_at.is_some() && stop_at.unwrap() <= cut) {
-                    let rest: Vec<HeapTok> = it.collect();
-                    Some(a + rest.feed_into_mut(&mut cb))
-                } else {
-                    Some(a)
-                }
+                let rest: Vec<HeapTok> = it.collect();
+                let b = rest.feed_into_mut(&mut cb);
+                two_batches = Some((cut, a, b));
+                None
             }
         };
     }
@@ -120,6 +119,15 @@ fn cb_body(c: &CbCase) -> Result<(), Fail> {
     if let Some(k) = count {
         ensure!(k == offered, "count", "reported count {k}, but {offered} items were offered (n={n}, stop_at={stop_at:?})");
     }
+    // which items the sink must have seen
+    let mut expect_ids: Vec<u32> = ids[..offered].to_vec();
+    if let Some((cut, a, b)) = two_batches {
+        // the closure answers false exactly at its stop_at-th invocation
+        let k = stop_at.unwrap_or(usize::MAX);
+        let (ea, eb) = if k <= cut { (k, n - cut) } else { (cut, (k - cut).min(n - cut)) };
+        ensure!(a == ea && b == eb, "count", "two feeds through one callback reported {a} and {b} items offered, expected {ea} and {eb} (n={n}, cut={cut}, stop_at={stop_at:?})");
+        expect_ids = ids[..ea].iter().chain(ids[cut..cut + eb].iter()).copied().collect();
+    }
     let seen_ids: Vec<u32> = match sink_kind {
         0 => seen_closure.iter().map(|t| t.id()).collect(),
         1 => sink_vec.iter().map(|t| t.id()).collect(),
@@ -127,13 +135,7 @@ fn cb_body(c: &CbCase) -> Result<(), Fail> {
         _ => Vec::new(),
     };
     if sink_kind != 3 {
-        ensure!(
-            seen_ids == ids[..offered],
-            "sequence",
-            "sink saw items {:?}, expected the first {offered} of {:?}",
-            seen_ids,
-            ids
-        );
+        ensure!(seen_ids == expect_ids, "sequence", "sink saw items {:?}, expected {:?} of {:?}", seen_ids, expect_ids, ids);
     } else {
         // a set keeps one item per distinct value; which duplicate survives is BTreeSet's business:
         // compare with a BTreeSet fed directly
@@ -155,7 +157,7 @@ fn cb_body(c: &CbCase) -> Result<(), Fail> {
         ensure!(tok::drops(*id) == want, "item-drop", "item {id}: dropped {} times right after feeding, expected {want}", tok::drops(*id));
     }
     if sink_kind == 0 {
-        ensure!(calls == offered, "invocations", "closure invoked {calls} times, expected {offered}");
+        ensure!(calls == expect_ids.len(), "invocations", "closure invoked {calls} times, expected {}", expect_ids.len());
     }
     Ok(())
 }
